@@ -43,29 +43,40 @@ func instrBefore(a, b ssa.Instruction) bool {
 
 // ---------------------------------------------------------------- R-SEEKREAD
 
+// hasSeekReadField: the struct (or a struct embedded in it) has a field of an interface type with Seek and Read.
+func hasSeekReadField(st *types.Struct, depth int) bool {
+	for i := 0; i < st.NumFields(); i++ {
+		switch ft := st.Field(i).Type().Underlying().(type) {
+		case *types.Interface:
+			hasSeek, hasRead := false, false
+			for j := 0; j < ft.NumMethods(); j++ {
+				switch ft.Method(j).Name() {
+				case "Seek":
+					hasSeek = true
+				case "Read":
+					hasRead = true
+				}
+			}
+			if hasSeek && hasRead {
+				return true
+			}
+		case *types.Struct:
+			if st.Field(i).Embedded() && depth < 2 && hasSeekReadField(ft, depth+1) {
+				return true
+			}
+		}
+	}
+	return false
+}
+
 func runSeekRead(r *core.Run) {
 	// the back end over an io.ReadSeeker: the type of package parse with a field of an interface type that has both
 	// Seek and Read, and its Bytes method (with the unexported helpers of the same receiver it calls)
 	var fn *ssa.Function
 	for _, f := range methodsNamed(r, "", "Bytes") {
 		if t, ok := f.Signature.Recv().Type().(*types.Pointer); ok {
-			if st, ok := t.Elem().Underlying().(*types.Struct); ok {
-				for i := 0; i < st.NumFields(); i++ {
-					if it, ok := st.Field(i).Type().Underlying().(*types.Interface); ok {
-						hasSeek, hasRead := false, false
-						for j := 0; j < it.NumMethods(); j++ {
-							switch it.Method(j).Name() {
-							case "Seek":
-								hasSeek = true
-							case "Read":
-								hasRead = true
-							}
-						}
-						if hasSeek && hasRead {
-							fn = f
-						}
-					}
-				}
+			if st, ok := t.Elem().Underlying().(*types.Struct); ok && hasSeekReadField(st, 0) {
+				fn = f
 			}
 		}
 	}
@@ -158,27 +169,36 @@ func runSeekRead(r *core.Run) {
 		if st, ok := t.Elem().Underlying().(*types.Struct); ok {
 			ints := 0
 			var extra []string
-			for i := 0; i < st.NumFields(); i++ {
-				ft := st.Field(i).Type()
-				switch u := ft.Underlying().(type) {
-				case *types.Basic:
-					if u.Info()&types.IsInteger != 0 {
-						ints++
-						if ints > 1 {
+			var census func(st *types.Struct, depth int)
+			census = func(st *types.Struct, depth int) {
+				for i := 0; i < st.NumFields(); i++ {
+					ft := st.Field(i).Type()
+					switch u := ft.Underlying().(type) {
+					case *types.Basic:
+						if u.Info()&types.IsInteger != 0 {
+							ints++
+							if ints > 1 {
+								extra = append(extra, st.Field(i).Name())
+							}
+						} else {
 							extra = append(extra, st.Field(i).Name())
 						}
-					} else {
+					case *types.Interface:
+					case *types.Struct:
+						if n, ok := ft.(*types.Named); ok && n.Obj().Pkg() != nil && n.Obj().Pkg().Path() == "sync" {
+							continue
+						}
+						if st.Field(i).Embedded() && depth < 2 {
+							census(u, depth+1) // the fields of an embedded struct are the struct's own
+							continue
+						}
+						extra = append(extra, st.Field(i).Name())
+					default:
 						extra = append(extra, st.Field(i).Name())
 					}
-				case *types.Interface:
-				case *types.Struct:
-					if n, ok := ft.(*types.Named); !ok || n.Obj().Pkg() == nil || n.Obj().Pkg().Path() != "sync" {
-						extra = append(extra, st.Field(i).Name())
-					}
-				default:
-					extra = append(extra, st.Field(i).Name())
 				}
 			}
+			census(st, 0)
 			r.Check(len(extra) == 0, "seeker back end keeps no position state", fn.Pos(), "", fmt.Sprintf("extra fields %v: BinaryReader.Clone shares the back end, so back-end position state makes clones interfere", extra))
 		}
 	}
